@@ -173,17 +173,26 @@ fn spawn_peers(n: usize) -> Peers {
     Peers { eps, hits }
 }
 
-/// members: <n> { <cluster> <ring0 0/1> }   (member i has actor id 100+i)
-fn parse_members(t: &mut Toks) -> Vec<(u16, bool)> {
+/// members: <n> { <cluster> <flag> }   (member i has actor id 100+i; flag bit 0 = ring0; flag >= 2:
+/// the member first registered in the node's own cluster and then renewed its identity, at the
+/// same address, into <cluster>)
+fn parse_members(t: &mut Toks) -> Vec<(u16, bool, bool)> {
     let n = t.usize();
-    (0..n).map(|_| (t.u64() as u16, t.u64() == 1)).collect()
+    (0..n).map(|_| { let c = t.u64() as u16; let f = t.u64(); (c, f & 1 == 1, f >= 2) }).collect()
 }
 
-async fn install_members(agent: &klukai_types::agent::Agent, peers: &Peers, ms: &[(u16, bool)]) {
+async fn install_members(agent: &klukai_types::agent::Agent, peers: &Peers, ms: &[(u16, bool, bool)]) {
+    let mine = agent.cluster_id();
     let mut members = agent.members().write();
-    for (i, (cluster, ring0)) in ms.iter().enumerate() {
+    for (i, (cluster, ring0, renewed)) in ms.iter().enumerate() {
         let addr: SocketAddr = peers.eps[i].local_addr().unwrap();
-        members.add_member(&Actor::new(actor_of(100 + i as u64), addr, Timestamp::from(1u64), ClusterId(*cluster)));
+        if *renewed {
+            // (identity timestamps are compared as durations: use whole seconds)
+            members.add_member(&Actor::new(actor_of(100 + i as u64), addr, Timestamp(uhlc::NTP64::from(Duration::from_secs(1))), mine));
+            members.add_member(&Actor::new(actor_of(100 + i as u64), addr, Timestamp(uhlc::NTP64::from(Duration::from_secs(2))), ClusterId(*cluster)));
+        } else {
+            members.add_member(&Actor::new(actor_of(100 + i as u64), addr, Timestamp::from(1u64), ClusterId(*cluster)));
+        }
         if *ring0 {
             members.add_rtt(addr, Duration::from_millis(1));
         }
